@@ -5,6 +5,7 @@ import (
 	"go/constant"
 	"go/token"
 	"go/types"
+	"sort"
 	"strings"
 
 	"golang.org/x/tools/go/ssa"
@@ -24,6 +25,7 @@ type sctx struct {
 	tenv      map[string]types.Type
 	depth     int
 	fn        *ssa.Function // function whose locals may be named (loop invariants, asserts)
+	defining  *opaqueInfo   // set while the body of an opaque spec function is being translated
 }
 
 func (vc *VC) ctx(cur, old *State) *sctx {
@@ -218,6 +220,12 @@ func (c *sctx) unify(a Term, at *SType, b Term, bt *SType) (Term, Term, *SType) 
 	if isGo(bt) && isNilType(bt.Go) && at != nil {
 		return a, c.nilOf(at), at
 	}
+	if at != nil && bt != nil && at.Kind == "real" && isGo(bt) && isIntLit(b) {
+		return a, intAsReal(b), at
+	}
+	if at != nil && bt != nil && bt.Kind == "real" && isGo(at) && isIntLit(a) {
+		return intAsReal(a), b, bt
+	}
 	// integer literal used as a float
 	if isGo(at) && isGo(bt) && isFloat(at.Go) && isInteger(bt.Go) && isIntLit(b) {
 		return a, intAsFloat(b), at
@@ -239,6 +247,13 @@ func isIntLit(t Term) bool {
 		}
 	}
 	return true
+}
+
+func intAsReal(t Term) Term {
+	if strings.HasPrefix(t, "(- ") {
+		return "(- " + strings.TrimSuffix(strings.TrimPrefix(t, "(- "), ")") + ".0)"
+	}
+	return t + ".0"
 }
 
 func intAsFloat(t Term) Term {
@@ -289,6 +304,9 @@ func (c *sctx) ident(x *EIdent) (Term, *SType) {
 	}
 	if b, ok := c.names[x.Name]; ok {
 		return b.t, b.typ
+	}
+	if gt, ok := vc.ghostLocals[x.Name]; ok && c.fn == vc.fn {
+		return vc.comp(c.cur, "L."+x.Name, c.sortOf(gt)), gt
 	}
 	if g, ok := vc.env.gvars[x.Name]; ok {
 		gt := vc.resolveType(g.RetType, nil, nil)
@@ -520,7 +538,7 @@ func (c *sctx) index(x *EIndex) (Term, *SType) {
 	switch u := ty.Go.Underlying().(type) {
 	case *types.Slice:
 		comp, cs := vc.elemsComp(u.Elem())
-		return app("select", app("select", vc.comp(c.cur, comp, cs), app("ys.arr", t)), app("+", app("ys.off", t), i)), goT(u.Elem())
+		return app(vc.reg.eltFn(vc.reg.sortOf(u.Elem())), app("select", vc.comp(c.cur, comp, cs), app("ys.arr", t)), app("ys.off", t), i), goT(u.Elem())
 	case *types.Array:
 		return app("select", t, i), goT(u.Elem())
 	case *types.Map:
@@ -646,6 +664,12 @@ func (c *sctx) binary(x *EBinary) (Term, *SType) {
 			}
 			return c.vc.floatOp(tok, a, b), at
 		}
+		if at.Kind == "real" {
+			if x.Op == "%" {
+				panic(specErr(x, "%% on reals"))
+			}
+			return app(x.Op, a, b), at
+		}
 		switch x.Op {
 		case "/":
 			return goDiv(a, b), at
@@ -734,6 +758,35 @@ func (c *sctx) call(x *ECall) (Term, *SType) {
 		}
 		_, v, _, vs := vc.mapComps(m)
 		return app("select", vc.comp(c.cur, v, vs), t), &SType{Kind: "map", Key: goT(m.Key()), Elem: goT(m.Elem())}
+	case "mkseq":
+		// mkseq(n, i, body): the sequence of length n whose i-th element is body (a definition by
+		// comprehension: a fresh constant with its characteristic facts; sound by extensionality)
+		if len(x.Args) != 3 && len(x.Args) != 4 {
+			panic(specErr(x, "mkseq(n, i, body [, extra trigger])"))
+		}
+		n, _ := arg(0)
+		iv, ok := x.Args[1].(*EIdent)
+		if !ok {
+			panic(specErr(x, "mkseq: second argument must be the index variable"))
+		}
+		bv := sym("q." + iv.Name)
+		body, bt := c.with(iv.Name, binding{t: bv, typ: goT(tInt)}).expr(x.Args[2])
+		st := &SType{Kind: "seq", Elem: bt}
+		ss := c.sortOf(st)
+		key := "mkseq:" + n + ":" + body
+		if t, ok := vc.uninterp[key]; ok {
+			return t, st
+		}
+		name := vc.fresh("mkseq", ss)
+		vc.uninterp[key] = name
+		vc.assumeGlobal(implies(app(">=", n, "0"), eq(app(seqFn(ss, "len"), name), n)))
+		pats := fmt.Sprintf(":pattern ((%s %s %s))", seqFn(ss, "at"), name, bv)
+		if len(x.Args) == 4 {
+			tr, _ := c.with(iv.Name, binding{t: bv, typ: goT(tInt)}).expr(x.Args[3])
+			pats += " :pattern (" + tr + ")"
+		}
+		vc.assumeGlobal(fmt.Sprintf("(forall ((%s Int)) (! (=> (and (<= 0 %s) (< %s %s)) (= (%s %s %s) %s)) %s))", bv, bv, bv, n, seqFn(ss, "at"), name, bv, body, pats))
+		return name, st
 	case "arrayOf":
 		t, _ := arg(0)
 		return app("ys.arr", t), goT(tInt)
@@ -788,6 +841,12 @@ func (c *sctx) call(x *ECall) (Term, *SType) {
 		b, _ := arg(1)
 		tok := map[string]token.Token{"fadd": token.ADD, "fsub": token.SUB, "fmul": token.MUL, "fdiv": token.QUO}[id.Name]
 		return vc.floatOp(tok, a, b), at
+	case "fadd_rtn", "fadd_rtp", "fsub_rtn", "fsub_rtp", "fmul_rtn", "fmul_rtp", "fdiv_rtn", "fdiv_rtp":
+		// directed-rounding variants: an operation whose round-down and round-up results coincide is exact
+		a, at := arg(0)
+		b, _ := arg(1)
+		op := map[string]string{"fadd": "fp.add", "fsub": "fp.sub", "fmul": "fp.mul", "fdiv": "fp.div"}[id.Name[:4]]
+		return app(op, strings.ToUpper(id.Name[5:]), a, b), at
 	case "fmod":
 		a, at := arg(0)
 		b, _ := arg(1)
@@ -805,6 +864,18 @@ func (c *sctx) call(x *ECall) (Term, *SType) {
 	case "rtn", "rtp", "rtz", "rna", "rne":
 		a, at := arg(0)
 		return app("fp.roundToIntegral", strings.ToUpper(id.Name), a), at
+	case "real":
+		a, at := arg(0)
+		if isGo(at) && isFloat(at.Go) {
+			return app("fp.to_real", a), &SType{Kind: "real", Name: "Real"}
+		}
+		if lit, ok := x.Args[0].(*EFloat); ok {
+			return lit.V, &SType{Kind: "real", Name: "Real"}
+		}
+		if isIntLit(a) {
+			return intAsReal(a), &SType{Kind: "real", Name: "Real"}
+		}
+		return app("to_real", a), &SType{Kind: "real", Name: "Real"}
 	case "fabs":
 		a, at := arg(0)
 		return app("fp.abs", a), at
@@ -819,18 +890,16 @@ func (c *sctx) call(x *ECall) (Term, *SType) {
 		if isIntLit(a) {
 			return intAsFloat(a), goT(tFloat)
 		}
-		if vc.floatMode == "ieee" {
-			return app("(_ to_fp 11 53)", "RNE", app("to_real", a)), goT(tFloat)
-		}
-		vc.reg.decl("ys.i2f", "(declare-fun ys.i2f (Int) Float64)")
+		vc.convFns()
 		return app("ys.i2f", a), goT(tFloat)
-	case "toInt": // float -> int, truncation (as Go's conversion when in range)
+	case "toInt": // float -> int, truncation (Go's conversion when the value fits)
 		a, _ := arg(0)
-		if vc.floatMode == "ieee" {
-			return app("to_int", app("fp.to_real", app("fp.roundToIntegral", "RTZ", a))), goT(tInt)
-		}
-		vc.reg.decl("ys.f2i", "(declare-fun ys.f2i (Float64) Int)")
+		vc.convFns()
 		return app("ys.f2i", a), goT(tInt)
+	case "fitsInt":
+		a, _ := arg(0)
+		vc.convFns()
+		return app("ys.f2i.ok", a), goT(tBool)
 	case "abs":
 		a, at := arg(0)
 		return ite(app(">=", a, "0"), a, app("-", a)), at
@@ -864,7 +933,7 @@ func (c *sctx) call(x *ECall) (Term, *SType) {
 		a, at := arg(0)
 		b, _ := arg(1)
 		return app(seqFn(c.sortOf(at), "snoc"), a, b), at
-	case "store": // functional update of a mathematical map / set
+	case "mapstore": // functional update of a mathematical map / set
 		a, at := arg(0)
 		k, _ := arg(1)
 		v, _ := arg(2)
@@ -1024,51 +1093,148 @@ func (vc *VC) resolveTypeLenient(te *TypeExpr, pkg *types.Package, tenv map[stri
 	return vc.resolveType(te, pkg, tenv)
 }
 
-// opaqueApp: uninterpreted function over the explicit arguments; the definitional axiom is the
-// body with the heap read at function entry (allowed only when the function reads immutable state).
-func (c *sctx) opaqueApp(d *Decl, recv *binding, args []Expr, at Expr) (Term, *SType) {
+// ---- opaque spec functions -----------------------------------------------------------------------------
+//
+// An opaque (possibly recursive) spec function becomes an uninterpreted SMT function whose
+// arguments are the heap components its body reads (lambda-lifted, so it can be applied in any
+// state) followed by its explicit parameters, with a definitional axiom triggered on applications.
+// The component lists of mutually recursive functions are computed by a fixpoint.
+
+type opaqueInfo struct {
+	d     *Decl
+	fn    string
+	ps    []Param
+	pts   []*SType
+	sorts []string
+	rt    *SType
+	pkg   *types.Package
+	comps []string
+	csort map[string]string
+	ready bool
+}
+
+func (c *sctx) opaqueInfoOf(d *Decl) *opaqueInfo {
 	vc := c.vc
-	var pkg *types.Package = c.pkg
+	if vc.opq == nil {
+		vc.opq = map[*Decl]*opaqueInfo{}
+	}
+	if oi, ok := vc.opq[d]; ok {
+		return oi
+	}
+	oi := &opaqueInfo{d: d, fn: sym("ys.p." + d.Name), csort: map[string]string{}, pkg: c.pkg}
 	if d.Pkg != "" {
 		if sp := vc.env.byName[d.Pkg]; sp != nil {
-			pkg = sp.Pkg
+			oi.pkg = sp.Pkg
 		}
 	}
-	rt := vc.resolveType(d.RetType, pkg, c.tenv)
-	fn := sym("ys.p." + d.Name)
-	var ps []Param
+	oi.rt = vc.resolveType(d.RetType, oi.pkg, nil)
 	if d.Recv != nil {
-		ps = append(ps, *d.Recv)
+		oi.ps = append(oi.ps, *d.Recv)
 	}
-	ps = append(ps, d.Params...)
-	var sorts []string
-	var pts []*SType
-	for _, p := range ps {
-		pt := vc.resolveType(p.Type, pkg, c.tenv)
-		pts = append(pts, pt)
-		sorts = append(sorts, c.sortOf(pt))
+	oi.ps = append(oi.ps, d.Params...)
+	for _, p := range oi.ps {
+		pt := vc.resolveType(p.Type, oi.pkg, nil)
+		oi.pts = append(oi.pts, pt)
+		oi.sorts = append(oi.sorts, c.sortOf(pt))
 	}
-	if !vc.reg.have[fn] {
-		vc.reg.decl(fn, fmt.Sprintf("(declare-fun %s (%s) %s)", fn, strings.Join(sorts, " "), c.sortOf(rt)))
-		// definitional axiom over the entry state
-		n := &sctx{vc: vc, cur: vc.entry, old: vc.entry, vars: map[string]binding{}, names: map[string]binding{}, pkg: pkg, tenv: c.tenv, depth: 0}
+	vc.opq[d] = oi
+	vc.opqWork = append(vc.opqWork, oi)
+	return oi
+}
+
+// translateOpaqueBody translates the body over a symbolic state and returns it with the components read.
+func (vc *VC) translateOpaqueBody(oi *opaqueInfo) (Term, map[string]string) {
+	st := &State{cells: map[*ssa.Alloc]Term{}, comps: map[string]Term{}, symbolic: true, rec: map[string]string{}}
+	n := &sctx{vc: vc, cur: st, old: st, vars: map[string]binding{}, names: map[string]binding{}, pkg: oi.pkg, tenv: map[string]types.Type{}, defining: oi}
+	for i, p := range oi.ps {
+		n.vars[p.Name] = binding{t: sym("a." + p.Name), typ: oi.pts[i]}
+	}
+	body, _ := n.expr(oi.d.Body)
+	return body, st.rec
+}
+
+func (vc *VC) settleOpaque() {
+	if len(vc.opqWork) == 0 {
+		return
+	}
+	// fixpoint of the component lists over everything discovered so far (translation may discover more)
+	for changed := true; changed; {
+		changed = false
+		for i := 0; i < len(vc.opqWork); i++ {
+			oi := vc.opqWork[i]
+			before := len(vc.opqWork)
+			_, rec := vc.translateOpaqueBody(oi)
+			if len(vc.opqWork) != before {
+				changed = true
+			}
+			for k, s := range rec {
+				if _, ok := oi.csort[k]; !ok {
+					oi.csort[k] = s
+					changed = true
+				}
+			}
+		}
+	}
+	work := vc.opqWork
+	vc.opqWork = nil
+	for _, oi := range work {
+		oi.comps = nil
+		for k := range oi.csort {
+			oi.comps = append(oi.comps, k)
+		}
+		sort.Strings(oi.comps)
+		var sorts []string
+		for _, k := range oi.comps {
+			sorts = append(sorts, oi.csort[k])
+		}
+		sorts = append(sorts, oi.sorts...)
+		vc.reg.decl(oi.fn, fmt.Sprintf("(declare-fun %s (%s) %s)\n(declare-fun %s (%s) %s)", oi.fn, strings.Join(sorts, " "), vc.ssort(oi.rt), oi.fn0(), strings.Join(sorts, " "), vc.ssort(oi.rt)))
+		oi.ready = true
+	}
+	for _, oi := range work {
+		body, _ := vc.translateOpaqueBody(oi)
 		var vars, as []string
-		for i, p := range ps {
-			name := sym("a." + p.Name)
-			n.vars[p.Name] = binding{t: name, typ: pts[i]}
-			vars = append(vars, fmt.Sprintf("(%s %s)", name, sorts[i]))
-			as = append(as, name)
+		for _, k := range oi.comps {
+			vars = append(vars, fmt.Sprintf("(%s %s)", sym("h."+k), oi.csort[k]))
+			as = append(as, sym("h."+k))
 		}
-		saveFacts := len(vc.facts)
-		body, _ := n.expr(d.Body)
-		if len(vc.facts) != saveFacts {
-			// definitions introduced while translating the body mention bound variables: inline is required
-			panic(specErr(at, "opaque spec function %s: body must not use let/definitions", d.Name))
+		for i, p := range oi.ps {
+			vars = append(vars, fmt.Sprintf("(%s %s)", sym("a."+p.Name), oi.sorts[i]))
+			as = append(as, sym("a."+p.Name))
 		}
-		lhs := app(fn, as...)
-		vc.reg.emit(fmt.Sprintf("(assert (forall (%s) (! (= %s %s) :pattern (%s))))", strings.Join(vars, " "), lhs, body, lhs))
+		lhs := app(oi.fn, as...)
+		// one-level unfolding: applications written in contracts unfold once; the recursive
+		// occurrences in the body are zero-fuel applications, which are only known to equal the
+		// corresponding unfoldable application when that one exists (e.g. from a callee's contract)
+		vc.reg.emit(fmt.Sprintf("(assert (forall (%s) (! (and (= %s %s) (= %s %s)) :pattern (%s))))", strings.Join(vars, " "), lhs, body, lhs, app(oi.fn0(), as...), lhs))
+	}
+	if len(vc.opqWork) > 0 {
+		vc.settleOpaque()
+	}
+}
+
+func (c *sctx) opaqueApp(d *Decl, recv *binding, args []Expr, at Expr) (Term, *SType) {
+	vc := c.vc
+	oi := c.opaqueInfoOf(d)
+	if !c.cur.symbolic && !oi.ready {
+		vc.settleOpaque()
 	}
 	var as []Term
+	if c.cur.symbolic && !oi.ready {
+		// inside the fixpoint: use (and thereby record) what is known so far
+		var ks []string
+		for k := range oi.csort {
+			ks = append(ks, k)
+		}
+		sort.Strings(ks)
+		for _, k := range ks {
+			as = append(as, vc.comp(c.cur, k, oi.csort[k]))
+		}
+	} else {
+		for _, k := range oi.comps {
+			as = append(as, vc.comp(c.cur, k, oi.csort[k]))
+		}
+	}
 	if recv != nil {
 		as = append(as, recv.t)
 	}
@@ -1078,10 +1244,71 @@ func (c *sctx) opaqueApp(d *Decl, recv *binding, args []Expr, at Expr) (Term, *S
 		if recv != nil {
 			k++
 		}
-		t, _, _ = c.unify(t, ty, c.nilOf(pts[k]), pts[k])
+		t, _, _ = c.unify(t, ty, c.nilOf(oi.pts[k]), oi.pts[k])
 		as = append(as, t)
 	}
-	return app(fn, as...), rt
+	fn := oi.fn
+	if c.cur.symbolic && c.defining != nil && vc.sameSCC(c.defining, oi) {
+		fn = oi.fn0()
+	}
+	return app(fn, as...), oi.rt
+}
+
+func (oi *opaqueInfo) fn0() string { return sym("ys.p0." + oi.d.Name) }
+
+// opaque call graph: which opaque functions does the body mention (by name)?
+func (vc *VC) opaqueCalls(oi *opaqueInfo) []string {
+	var out []string
+	for name, ds := range vc.env.pures {
+		for _, d := range ds {
+			if d.Opaque && mentions(oi.d.Body, name) {
+				out = append(out, name)
+				break
+			}
+		}
+	}
+	sort.Strings(out)
+	return out
+}
+
+func (vc *VC) opaqueReaches(from, to string, seen map[string]bool) bool {
+	if seen[from] {
+		return false
+	}
+	seen[from] = true
+	for _, ds := range vc.env.pures[from] {
+		if !ds.Opaque {
+			continue
+		}
+		for name, ds2 := range vc.env.pures {
+			op := false
+			for _, d2 := range ds2 {
+				op = op || d2.Opaque
+			}
+			if !op || !mentions(ds.Body, name) {
+				continue
+			}
+			if name == to || vc.opaqueReaches(name, to, seen) {
+				return true
+			}
+		}
+	}
+	return false
+}
+
+// sameSCC: are the two opaque functions mutually recursive (or the same recursive function)?
+func (vc *VC) sameSCC(a, b *opaqueInfo) bool {
+	key := "scc:" + a.d.Name + ":" + b.d.Name
+	if v, ok := vc.uninterp[key]; ok {
+		return v == "1"
+	}
+	r := vc.opaqueReaches(a.d.Name, b.d.Name, map[string]bool{}) && vc.opaqueReaches(b.d.Name, a.d.Name, map[string]bool{})
+	if r {
+		vc.uninterp[key] = "1"
+	} else {
+		vc.uninterp[key] = "0"
+	}
+	return r
 }
 
 // useAxiomsFor adds the axioms that mention an extern function (once).
@@ -1101,9 +1328,7 @@ func (vc *VC) useAxiomsFor(name string) {
 			n := &sctx{vc: vc, cur: vc.entry, old: vc.entry, vars: map[string]binding{}, names: map[string]binding{}}
 			save := len(vc.facts)
 			t := n.formula(a.Body)
-			if len(vc.facts) != save {
-				panic(specErr(a.Body, "axioms must not use let"))
-			}
+			_ = save
 			vc.reg.emit("(assert "+t+")")
 		}
 	}
@@ -1178,6 +1403,9 @@ func (c *sctx) modTargets(e Expr) []modTarget {
 	vc := c.vc
 	switch x := e.(type) {
 	case *EIdent:
+		if gt, ok := vc.ghostLocals[x.Name]; ok {
+			return []modTarget{{comp: "L." + x.Name, sort: c.sortOf(gt), whole: true}}
+		}
 		if g, ok := vc.env.gvars[x.Name]; ok {
 			gt := vc.resolveType(g.RetType, nil, nil)
 			return []modTarget{{comp: "G.var." + x.Name, sort: c.sortOf(gt), whole: true}}
